@@ -314,6 +314,9 @@ func genSynth(rng *prng.R, n int) []CaseD {
 		if kind > 0 {
 			sq.version = 4
 		}
+		if dev(15, "auth-empty") {
+			sq.auth = nil
+		}
 		env := EnvD{}
 		if dev(12, "lax") {
 			env.Lax = true
